@@ -4,7 +4,7 @@
    (c05_prim  LANG PRIM NAME)                     (LEAF_OK KNOWN GOOD TABLE_NAME)
    (c05_denote TY)                                (SRC_OK RTYPE (model outcome of parse_ty))
    (c05_keys  RTYPE)                              (RUST_NAME TOOL_KEY)
-   (c05_uses_param GENERICS RTYPE)                bool *)
+   (c05_judge_site LANG CFG SITE GENERICS RTYPE OBS)  like c05_judge, at a use site (field alias inline_alias payload const) *)
 open Drv_base
 open Drv_ast
 open Drv_ir
@@ -98,11 +98,25 @@ let c05_keys args =
   | [t] -> let t = to_rtype t in L [ str_to_atom (Model.c05_rust_name t); str_to_atom (Model.c05_tool_key t) ]
   | _ -> raise (Bad "c05_keys args")
 
-let c05_uses_param args =
+let site_of = function
+  | A "field" -> Model.C05SField | A "alias" -> Model.C05SAlias | A "inline_alias" -> Model.C05SInlineAlias
+  | A "payload" -> Model.C05SPayload | A "const" -> Model.C05SConst
+  | _ -> raise (Bad "c05 site")
+let site_class_name = function
+  | Model.C05S_type k -> class_name k
+  | Model.C05S_kotlin_inline_generic -> "C05-kotlin-inline-generic"
+
+(* (c05_judge_site LANG CFG SITE GENERICS RTYPE OBS) -> (DOM KNOWN GOOD ERASE) with the generics list the site must use *)
+let c05_judge_site args =
   match args with
-  | [g; t] -> of_bool (Model.c05_uses_param (to_list to_str g) (to_rtype t))
-  | _ -> raise (Bad "c05_uses_param args")
+  | [lang; cfg; site; g; t; obs] ->
+    let l = lang_of lang and c = c05cfg cfg and s = site_of site and g = to_list to_str g and t = to_rtype t in
+    L [ of_bool (Model.dom_C05 t);
+        of_opt (fun k -> A (site_class_name k)) (Model.known_C05_site l c s g t);
+        of_bool (Model.good_C05_site l c s g t (to_opt to_texp obs));
+        of_texp (Model.c05_norm (Model.c05_erase l c (Model.c05_site_generics s g) t)) ]
+  | _ -> raise (Bad "c05_judge_site args")
 
 let () =
   register "c05_fmt" c05_fmt; register "c05_judge" c05_judge; register "c05_prim" c05_prim;
-  register "c05_denote" c05_denote; register "c05_keys" c05_keys; register "c05_uses_param" c05_uses_param
+  register "c05_denote" c05_denote; register "c05_keys" c05_keys; register "c05_judge_site" c05_judge_site
